@@ -147,7 +147,7 @@ def parse_output(text, flavour):
             stats = parse_stats(line)
         elif line.startswith("DIGEST "):
             parts = line.split()
-            digests[(parts[1], parts[2])] = parts[3]
+            digests[(parts[1], parts[2])] = (parts[3], int(parts[4]) if len(parts) > 4 else 0)
         elif line.startswith("TERMINATE ") or line.startswith("SIGNAL ") or line.startswith("ASAN "):
             kind = line.split()[0].lower()
             info = dict(t.split("=", 1) for t in line.split()[1:] if "=" in t)
